@@ -6,7 +6,7 @@ import SciVerif.Tie.Pins
 `case` of `formatCommand` / `SetOut` that the Lean model mirrors. -/
 namespace SciVerif.Tie
 -- functions the model relies on without an obligation of its own naming them (pinned by bin/mkpins):
--- PIN-ALSO: Scipipe.Process_initPortsFromCmdPattern Scipipe.NewTask
+-- PIN-ALSO: Scipipe.Process_initPortsFromCmdPattern Scipipe.NewTask Scipipe.strInSlice Scipipe.Task_Param Scipipe.Task_Tag Scipipe.FileIP_Path
 open SciVerif.Generated
 
 theorem generated_consts_c15 : constsMatch = true := by decide
@@ -73,20 +73,25 @@ theorem generated_default_path_shape :
      l.any (fun a => a.isCall "Join" && a.args == ["pathPcs", "\".\""])) = true := by decide
 
 
+
 -- BEGIN PINS (written by bin/mkpins; do not edit by hand)
 /-- the Go functions this property's model and obligations were written against have exactly the
 pinned skeletons (SHA-256 prefix of the atom list) -/
 theorem pinned_skeletons_c15 :
     pinsOk
-    [("Scipipe.NewTask", "95298f03c320cb96"),
+    [("Scipipe.FileIP_Path", "c6a514b4100d9a7c"),
+     ("Scipipe.NewTask", "95298f03c320cb96"),
      ("Scipipe.Process_SetOut", "a1605d3714f8fc2a"),
      ("Scipipe.Process_initDefaultPathFuncs", "012072977ffdc36d"),
      ("Scipipe.Process_initPortsFromCmdPattern", "4f7c6ade86c29af6"),
+     ("Scipipe.Task_Param", "f6b2d87a93ffc9ba"),
+     ("Scipipe.Task_Tag", "c339c17bc1c1a114"),
      ("Scipipe.Task_formatCommand", "ccbe98735ce5c7d6"),
      ("Scipipe.applyPathModifiers", "8f319e3baa487b4a"),
      ("Scipipe.getShellCommandPlaceHolderRegex", "2974b35d7f6e39cc"),
      ("Scipipe.pathIsValid", "769a2bbc57bb6972"),
-     ("Scipipe.sanitizePathFragment", "eb309140aa9dd69d")] = true := by decide
+     ("Scipipe.sanitizePathFragment", "eb309140aa9dd69d"),
+     ("Scipipe.strInSlice", "a899dfa0324d572f")] = true := by decide
 -- END PINS
 
 end SciVerif.Tie
